@@ -31,6 +31,10 @@ pub enum IoOp {
     Close,
     Mmap,
     Stat,
+    /// `read` on a store file (startup scans)
+    Read,
+    /// `opendir` of a store directory
+    OpenDir,
     /// calls that must never touch a store file (C14): value says which
     Forbidden,
     Adopt,
@@ -638,6 +642,7 @@ pub fn hook_read_side(op: IoOp, fd: i32, path: Option<&[u8]>, fail_errnos_ok: bo
     };
     let kind = match op {
         IoOp::Mmap => Kind::IoMmap,
+        IoOp::Read | IoOp::OpenDir => Kind::IoOther,
         _ => Kind::IoStat,
     };
     sim.yield_point(me, kind, false);
